@@ -122,6 +122,7 @@ var palette = []string{
 	`"value":9007199254740993.0`, `"value":1.00000000000000000001`, `"value":1023.99999999999999999`, `"value":18446744073709551615.0`, `"value":1.8446744073709551616e19`, `"value":1e0`, `"value":10E-1`,
 	`"x":1`, `"y":{"value":9,"unit":"MB","z":[1,{"a":[]}]}`, `"z":[[1,2],{"unit":"kB"}]`, `"":null`, `"valu":true`,
 	// member names that only begin like value / unit, and units that begin like a number
+	`"value":0`, `"unit":"ZB"`, `"unit":"YiB"`,
 	`"values":3`, `"valueBytes":1024`, `"VALUE_2":"x"`, `"units":"kB"`, `"unit2":5`, `"unit":"0kB"`, `"unit":"7"`, `"unit":" B"`,
 }
 
